@@ -104,7 +104,7 @@ func judge(c wireCase) outcome {
 			return outcome{"judged", fmt.Errorf("bytes written by generated Write of %s are not a valid encoding under the IDL schema: %v\n  value %s\n  bytes %x", c.Struct, derr, ref.Show(v), b)}
 		}
 		if got := ref.Normalise(top, dr.Value); !ref.Equal(want, got) {
-			return outcome{"judged", fmt.Errorf("generated Write of %s encodes a different value\n  want %s\n  got  %s\n  bytes %x", c.Struct, ref.Show(want), ref.Show(got), b)}
+			return outcome{"judged", fmt.Errorf("generated Write of %s encodes a different value\n  first difference: %s\n  want %s\n  got  %s\n  bytes %x", c.Struct, vt.Truncate(ref.FirstDiff(want, got), 1200), ref.Show(want), ref.Show(got), b)}
 		}
 		// direction 2: reference encoder, generated Read
 		enc := ref.Encode(st, v, &ref.EncodeOpts{Reverse: c.Reverse})
@@ -182,7 +182,7 @@ func readExpectExcept(call caller, key string, st *ref.StructT, enc []byte, want
 		delete(ws.F, except)
 	}
 	if g := dropField(ref.Normalise(top, got), except); !ref.Equal(dropField(want, except), g) {
-		return fmt.Errorf("generated Read of %s (%s) yields a different value\n  want %s\n  got  %s\n  bytes %x", st.Name, what, ref.Show(want), ref.Show(g), enc)
+		return fmt.Errorf("generated Read of %s (%s) yields a different value\n  first difference: %s\n  want %s\n  got  %s\n  bytes %x", st.Name, what, vt.Truncate(ref.FirstDiff(want, g), 1200), ref.Show(want), ref.Show(g), enc)
 	}
 	return nil
 }
@@ -245,6 +245,10 @@ func genSpec(rt *rapid.T) string {
 			continue
 		}
 		opts = append(opts, o)
+	}
+	// keep_unknown_fields replaces the skip of unknown fields by a codec of its own: a quarter of the programs
+	if rapid.IntRange(0, 3).Draw(rt, "keepunknown") == 0 {
+		opts = append(opts, "keep_unknown_fields")
 	}
 	if len(opts) == 0 {
 		return "go"
